@@ -8,14 +8,14 @@ from checks import *
 T3 = '0x5dabul'
 _QUICK = [U(2, [0, 1]), U(2, [0, 2]), U(3, [0, 1]), U(2, [0, 1, 2]), U(3, [0, 2], CHAIN=2), U(4, [0, 1], CHAIN=1), U(2, [0, 3], RMASK=T3),
           U(2, [0, 0, 1]), U(2, [0, 0, 2]),
-          U(2, [0, 1, 2], SAME_SYMNUM=5), U(3, [0, 1], SAME_SYMNUM=5)]      # one symbol number used with several arities      # third red-team round: a state with two leaf rules (more kept rules than reached states)
+          U(2, [0, 1, 2], SAME_SYMNUM=5), U(3, [0, 1], SAME_SYMNUM=5), U(2, [0, 1, 2], SAME_SYMNUM=5, BUILD_REV=None), U(2, [0, 1], BUILD_REV=None)]      # one symbol number used with several arities      # third red-team round: a state with two leaf rules (more kept rules than reached states)
 _THOROUGH = _QUICK + [U(2, [0, 3], _time=1500), U(2, [0, 0, 1, 2]), U(3, [0, 0, 1]), U(3, [0, 1, 2], CHAIN=2), U(5, [0, 1], CHAIN=2)]
 
 CHECKS = {
  'C15': {
   'level': 'model_checking',
   'explanation': 'ExplicitTreeAut::GetCandidateTree executed symbolically on every automaton of the rule universe of the configuration (presence bit per rule, finality bit per state). The returned automaton W is decoded by iterating it, independently of the state numbers it uses (at most as many distinct states as A has; numbers assigned to universe states in order of first occurrence); L(W) subseteq L(A) is decided by the independent macro-state inclusion oracle, emptiness of L(W) and L(A) by a naive productivity fixpoint on both (W must be empty exactly when A is); A is re-read after the call and must be unchanged. (That W is a sub-automaton of A under the state numbers of A without rules out of reach of its final states is how the current implementation works, not part of the property: those checks are kept under STRICT_IMPL, which is never defined.)',
-  'bounds': {'quick': 'all automata over 2 states x {a/0,f/1}, {a/0,g/2}, {a/0,f/1,g/2}; 3 states x {a/0,f/1}; 3 states x {a/0,g/2} and 4 states x {a/0,f/1} with the rules restricted to neighbouring states, 2 states x {a/0,t/3} with 10 of the 16 ternary rules (repeated children) (deep chains: smallest accepted tree of depth up to 4; leaf-only languages; unproductive final states); 8..18 free bits per query; third red-team round: 2 states x {a/0,b/0,f/1}, {a/0,b/0,g/2} (two leaf rules of one state); one symbol number used with the arities 0, 1, 2 (2 states) and 0, 1 (3 states)',
+  'bounds': {'quick': 'all automata over 2 states x {a/0,f/1}, {a/0,g/2}, {a/0,f/1,g/2}; 3 states x {a/0,f/1}; 3 states x {a/0,g/2} and 4 states x {a/0,f/1} with the rules restricted to neighbouring states, 2 states x {a/0,t/3} with 10 of the 16 ternary rules (repeated children) (deep chains: smallest accepted tree of depth up to 4; leaf-only languages; unproductive final states); 8..18 free bits per query; third red-team round: 2 states x {a/0,b/0,f/1}, {a/0,b/0,g/2} (two leaf rules of one state); one symbol number used with the arities 0, 1, 2 (2 states; rules added in universe order and in reverse order: the tuple objects are ordered by address) and 0, 1 (3 states)',
              'thorough': 'as quick plus all of 2 states x {a/0,t/3} (20 bits), 2 states x {a/0,b/0,f/1,g/2}, 3 states x {a/0,b/0,f/1}, 3 states x {a/0,f/1,g/2} and 5 states x {a/0,f/1} restricted to neighbouring states (depth up to 5; up to 20 bits)'},
   'outside': 'more than 3 states with unrestricted rules / more than 5 states in chains, rank > 3, more than 4 symbols; the command line front end (`vata witness`: parsing and serialisation around the same call); automata sharing storage with other automata (see C11)',
   'harnesses': [
